@@ -135,7 +135,7 @@ def generate_is_empty(_predicate: IsEmptyPredicate) -> Iterator:
 
 @generate_false.register
 def generate_ne(predicate: NePredicate) -> Iterator:
-    yield from predicate.v
+    yield predicate.v
 
 
 @generate_false.register
